@@ -450,7 +450,11 @@ func workerMain(t *testing.T, p *Prop, tier string) {
 			// shrink landed on a known finding only; original is known-equivalent
 			continue
 		}
-		path := filepath.Join(root, "out", "replay", fmt.Sprintf("%s-%d-%d.json", p.ID, base, run))
+		rdir := os.Getenv("VERIF_REPLAY_DIR")
+		if rdir == "" {
+			rdir = filepath.Join(root, "out", "replay")
+		}
+		path := filepath.Join(rdir, fmt.Sprintf("%s-%d-%d.json", p.ID, base, run))
 		_ = os.MkdirAll(filepath.Dir(path), 0o755)
 		b, _ := json.MarshalIndent(rf, "", " ")
 		_ = os.WriteFile(path, b, 0o644)
